@@ -1159,7 +1159,8 @@ def validate_one(ctx, spec, doc, want_reject, key, name):
 
 
 def prefix_probe_spec(r=None):
-    """two versions of one API in a request; the v1 file imports a v1beta1 type (so protoc sends both)"""
+    """two versions of one API in a request; the v1 file imports a v1beta1 type (so protoc sends both).
+    Regression input for the defect repaired by `fix:` a25ff42 (version matched on a whole package segment)."""
     beta = {"name": "acme/lib/v1beta1/lib.proto", "package": "acme.lib.v1beta1", "deps": [], "resdefs": [], "enums": [],
             "messages": [_msg("Thing", [{"name": "name", "t": "string"}]), _msg("GetThingRequest", [{"name": "name", "t": "string"}])],
             "services": [{"name": "Library", "methods": [{"name": "GetThing", "input": ".acme.lib.v1beta1.GetThingRequest", "output": ".acme.lib.v1beta1.Thing"}]}]}
@@ -1311,8 +1312,9 @@ CLAIM = dict(
           "service/polling method/request/operation (soundness for every fuel; completeness = the fuel suffices; closure; "
           "leastness among closed sets); pruning is closed and minimal and keeps exactly the listed RPCs plus needed polling "
           "methods; dependency protos are carried over untouched; internal mode omits nothing and renames (`_` prefix, `Base` "
-          "client prefix iff some method is internal); unknown / wrong-version methods are rejected, and nothing else is. "
-          "Counterexample theorems for the two places where the code violates the statement. Tie: T2 the real "
+          "client prefix iff some method is internal); unknown / wrong-version methods (version matched on whole package "
+          "segments) are rejected, and nothing else is. A counterexample theorem for the place where the code violates the "
+          "statement (nested type kept, declaring message pruned) and a regression theorem for the repaired prefix defect. Tie: T2 the real "
           "add_to_address_allowlist / prune_messages_for_selective_generation / with_internal_methods / "
           "enforce_valid_library_settings / API.build on the type graph extracted from the real schema objects (addresses "
           "numbered by the real Address.__eq__/__hash__); T3 classes, client surfaces and wire behaviour of the imported "
